@@ -122,6 +122,16 @@ CHECKS = {
               "validated against the machine by TLC (Trace_Rollout). RepeatedStepper/ForcedStepper/build_ic_set are compared with python loops "
               "over every public stepper class."),
         note="TLC, dump parser, injectivity of the bookkeeping stepper, jax.disable_jit / ordered debug callbacks for call logging"),
+    "C15": dict(
+        category="model_checking", design_ref="4/C15", engine="layout",
+        technique="TLC step machine of map_between_resolutions (Scale/ZeroOddballOld/CopyBlock/Rescale/ZeroOddballNew) and exact interpolant spectra (MC_Resample) + replay of every terminal state",
+        text=("MC_Resample executes the resolution change as the code does, block by block, on the exact half-spectrum of every real basis function "
+              "of the old grid (Nyquist modes included) for every (D, N, M) in range (all parity combinations, M = N+-1, integer ratios); TLC checks "
+              "that every copied entry keeps its wavenumber, the mean is preserved for every state, and a mode both grids resolve is mapped to the same "
+              "function while unresolved / Nyquist modes are removed; the interpolant's two-sided spectrum equals the basis function for Nyquist-free "
+              "modes and reproduces any state on its own grid. Replay: map_between_resolutions and FourierInterpolator on every state with random "
+              "amplitude/phase/L/channels, query points inside and outside the domain, random dense states (both indexings, float-hazard grid sizes)."),
+        note="TLC, numpy cos, fft conventions (C04); tolerance 1e-10 relative"),
     "C17": dict(
         category="model_checking", design_ref="4/C17", engine="layout",
         technique="TLC-exact radial spectrum of every real basis function (MC_Spectrum) with one-bin/amplitude/Parseval/average invariants + replay into get_spectrum",
@@ -183,7 +193,7 @@ def main():
             "add_only": True,
         },
         "engines": [
-            {"name": "layout", "path": "spec/MC_Layout.tla spec/MC_Fft.tla harness/checks/c04.py", "serves_properties": ["C04", "C17"],
+            {"name": "layout", "path": "spec/MC_Layout.tla spec/MC_Fft.tla harness/checks/c04.py", "serves_properties": ["C04", "C15", "C17"],
              "kind_free_text": "TLC exhaustive tables + spec->code replay"},
             {"name": "linear", "path": "spec/Symbols.tla spec/MC_Linear.tla harness/linear.py harness/checks/c01.py", "serves_properties": ["C01", "C05", "C11", "C13"],
              "kind_free_text": "TLC symbol tables + behaviours, spec->code replay"},
